@@ -199,21 +199,31 @@ MANIFEST = dict(
          "serialize: the reader, the flag computation and the writer are transcribed as three INDEPENDENT tables of the 51 flagged fields "
          "(each is hand-unrolled in the source); a generic theorem proves that for any common well-formed schema (distinct bits, marker "
          "bit free, extended fields behind flag byte >= 4) the reader inverts the writer (C18_agreement_implies_round_trip) and the "
-         "agreement of the three concrete tables with one well-formed schema is computed (C18_schemas_agree). Hence for every header "
-         "flags word and every list of specs in normal form (an absent typed field holds its default; values are 32-bit patterns, NaN "
-         "payloads included): the writer builds exactly the cell list flags word ++ records ++ trailing zero word, the reader returns "
-         "the value on every archive showing that layout (C18_round_trip_archive, C18_reader_inverts_layout), 4 flag bytes are used iff "
-         "no extended field is present (C18_short_form), a record occupies |flags| + 4 + 4 * #present fields = the announced size and "
-         "#present = popcount(flags) - marker (C18_record_size), the data-size field of the file is 4 + the announced sizes + 4 "
-         "(C18_data_size), whatever the reader returns from any archive / byte string is in normal form and a fixed point of "
-         "write -> read (C18_reader_output_round_trips), the read loop stops at the trailing zero word (C18_read_loop_stops). "
-         "Byte level (C18_round_trip_final, no premise): for NUL-free strings and image < 2^32, in both arithmetic modes serialize "
-         "succeeds, parse(bytes) returns the same value and re-serializing whatever is re-read gives the same bytes; proved from the "
-         "bin-archive round trip C01 via Proofs/RecsBinBridge.v. Model tied to /repo on every run: value -> serialize -> parse -> "
-         "re-serialize compared line by line with the extracted model (every field toggled alone, adjacent pairs, all-absent, "
-         "all-present, random subsets), plus an independent Python decoder of the image as oracle.",
-    note=TB + "Strings are Shift-JIS encoded byte lists (A-codec). f32 fields are carried as bit patterns on both sides (from_bits/to_bits). "
-              "The normal form is necessary (Example C18_normal_form_needed): the value of a field whose use_* flag is false is not stored.",
+         "agreement of the three concrete tables with one well-formed schema is computed (C18_schemas_agree). Round trip for ALL specs "
+         "(C18_round_trip_normalises; hypotheses: the representation invariants of the Rust struct - 33 strings, 18 typed fields, 32-bit "
+         "patterns, NaN payloads included - NUL-free strings, image < 2^32; both arithmetic modes; premise-free, proved from the "
+         "bin-archive round trip C01 via Proofs/RecsBinBridge.v): serialize succeeds and parse(bytes) returns the NORMALISED value - the "
+         "same header flags and per spec the same name, the same 33 optional strings, the same 18 presence flags and the same value of "
+         "every PRESENT typed field (C18_normalise_keeps). SCOPE REMARK: a value held by an ABSENT typed field (use flag false) is not "
+         "preserved - the format does not store it, it reads back as the default 0; the literal reading 'arbitrary field values read back "
+         "exactly' is stated as C18_round_trip_full and REFUTED (C18_round_trip_full_refuted: unk3 = 5 with use_unk3 = false; the real "
+         "crate behaves the same), equality holds exactly on the normal form (C18_round_trip_equal_iff_normal_form, "
+         "C18_round_trip_normal_form). Further: the writer builds exactly the cell list flags word ++ records ++ trailing zero word and the "
+         "reader returns the value on every archive showing that layout (C18_round_trip_archive, C18_reader_inverts_layout), 4 flag bytes "
+         "are used iff no extended field is present (C18_short_form), a record occupies |flags| + 4 + 4 * #present fields = the announced "
+         "size and #present = popcount(flags) - marker (C18_record_size), the data-size field of the file is 4 + the announced sizes + 4 "
+         "(C18_data_size), whatever the reader returns from any archive / byte string is in normal form and a fixed point of write -> read "
+         "(C18_reader_output_round_trips), the read loop stops at the trailing zero word (C18_read_loop_stops). Model tied to /repo on every "
+         "run: value -> serialize -> parse -> re-serialize compared line by line with the extracted model (every field toggled alone, "
+         "adjacent pairs, all-absent, all-present, random subsets, non-normal-form values), plus an independent Python decoder of the "
+         "image as oracle.",
+    note=TB + "Strings are Shift-JIS encoded byte lists (A-codec). ASSUMPTION (A-f32): an f32 field IS its 32-bit pattern in the model; on "
+              "the Rust side 'bit-for-bit, NaN payloads included' rests on f32::from_bits / to_bits and byteorder's read_f32 / write_f32 "
+              "being the identity on every pattern, signalling NaNs included (true on x86-64 / SSE2, exercised by planted patterns "
+              "0x7FA00001, 0xFFC12345, -0.0 in the generator; not provable inside Coq). The conjunct 're-serializing whatever is re-read "
+              "gives the same bytes' follows from the other two in the deterministic model; that two runs of the real serializer (fresh "
+              "hash state) agree is C02's statement, observed here by the harness (ser2 = ser).",
     technique="Coq proof (three transcribed tables = projections of one computed-well-formed schema; cell-list simulation of the writer, layout "
-              "inversion by the reader; byte level from the bin-archive round trip C01) + extracted-model differential check + independent decoder oracle",
+              "inversion by the reader; normalisation lemma: the writer ignores absent values; byte level from the bin-archive round trip C01) "
+              "+ extracted-model differential check + independent decoder oracle",
     ref="DESIGN.md section 6 (C18)")
